@@ -14,6 +14,7 @@ import (
 	"strconv"
 	"strings"
 	"sync"
+	"sync/atomic"
 	"time"
 
 	gometrics "github.com/hashicorp/go-metrics/compat"
@@ -373,7 +374,7 @@ func c20Sites() map[string]string {
 }
 
 func runC20(c *evid.Ctx) {
-	c.Rule("random operation sequences (C05 alphabet incl. delete-all, DeleteRange over an empty tail, high base indexes, base-index resets, reopen) with a recording collector; at quiescence every WAL counter must equal the model's total (entries, encoded bytes via the codec, calls, reads, stable gets/sets, head/tail truncation = entries actually removed, rotations = segments created - initial - tail truncations - delete-alls - base-index resets); every emitted name must be in MetricDefinitions and must not make the bundled AtomicCollector panic; verifier histories (leader, follower, in-flight and at-rest corruption, blocked ReportFn) do the same for the verifier's metrics; non-trivial = distinct (counter, zero/non-zero expected value) checks",
+	c.Rule("random operation sequences (C05 alphabet incl. delete-all, DeleteRange over an empty tail, high base indexes, base-index resets, reopen) with a recording collector; at quiescence every WAL counter must equal the model's total (entries, encoded bytes via the codec, calls, reads, stable gets/sets, head/tail truncation = entries actually removed, rotations = segments created - initial - tail truncations - delete-alls - base-index resets); every emitted name must be in MetricDefinitions and must not make the bundled AtomicCollector panic; the bundled GoMetricsCollector (prefix slice with spare capacity) in front of a totalling sink, with reader emissions overlapping writer emissions (one observation held inside the sink while appends emit, and a 4-reader stress), must deliver every counter total under its own name; verifier histories (leader, follower, in-flight and at-rest corruption, blocked ReportFn) do the same for the verifier's metrics; non-trivial = distinct (counter, zero/non-zero expected value) checks",
 		"operations", "counter_checks")
 	n := 4000
 	if !quick(c) {
@@ -403,6 +404,15 @@ func runC20(c *evid.Ctx) {
 	}
 	close(jobs)
 	wg.Wait()
+	// the other bundled collector with overlapping emissions
+	for _, hold := range []string{"log_entries_read", "log_entry_bytes_read", ""} {
+		c20GoMetrics(c, c.Seed, hold)
+	}
+	if !quick(c) {
+		for k := int64(1); k <= 20; k++ {
+			c20GoMetrics(c, c.Seed*31+k, "")
+		}
+	}
 	c.Sample(map[string]any{"sequence_seed": c.Seed * 1000003, "note": "20-70 ops of the C05 template alphabet plus random reads and stable ops"})
 	// verifier metrics
 	vdecl := map[string]bool{}
@@ -541,4 +551,157 @@ func (s *corruptingStore) GetLog(i uint64, l *raft.Log) error {
 		l.Data = append([]byte("X"), l.Data...)
 	}
 	return err
+}
+
+// ---- the bundled GoMetricsCollector under concurrent emission ----
+
+// c20Sink is a go-metrics sink that totals counters by the name it is handed, and can
+// hold one observation of a chosen name inside the sink while other emissions proceed.
+type c20Sink struct {
+	mu       sync.Mutex
+	counters map[string]float64
+	gauges   map[string]float64
+	holdName string
+	held     chan struct{} // closed when an observation of holdName is inside the sink
+	release  chan struct{}
+	didHold  bool
+}
+
+func (s *c20Sink) SetGauge(key []string, val float32) { s.SetGaugeWithLabels(key, val, nil) }
+func (s *c20Sink) SetGaugeWithLabels(key []string, val float32, _ []gometrics.Label) {
+	s.mu.Lock()
+	s.gauges[strings.Join(key, ".")] = float64(val)
+	s.mu.Unlock()
+}
+func (s *c20Sink) EmitKey(key []string, val float32)     {}
+func (s *c20Sink) IncrCounter(key []string, val float32) { s.IncrCounterWithLabels(key, val, nil) }
+func (s *c20Sink) IncrCounterWithLabels(key []string, val float32, _ []gometrics.Label) {
+	s.mu.Lock()
+	hold := !s.didHold && s.holdName != "" && len(key) > 0 && key[len(key)-1] == s.holdName
+	if hold {
+		s.didHold = true
+	}
+	s.mu.Unlock()
+	if hold {
+		close(s.held)
+		<-s.release
+	}
+	// the key is read only now: a collector that hands out a shared backing array has
+	// had it overwritten by the emissions that ran in the meantime
+	name := strings.Join(key, ".")
+	s.mu.Lock()
+	s.counters[name] += float64(val)
+	s.mu.Unlock()
+}
+func (s *c20Sink) AddSample(key []string, val float32)                                     {}
+func (s *c20Sink) AddSampleWithLabels(key []string, val float32, labels []gometrics.Label) {}
+
+// c20GoMetrics: a WAL whose collector is the bundled GoMetricsCollector (prefix slice
+// with spare capacity, as produced by append(base, "wal")) in front of a sink; emissions
+// from readers overlap emissions from the writer. Every counter total seen by the sink
+// must equal what the WAL emitted (recorded at the Collector interface).
+func c20GoMetrics(c *evid.Ctx, seed int64, hold string) {
+	sink := &c20Sink{counters: map[string]float64{}, gauges: map[string]float64{}, holdName: hold, held: make(chan struct{}), release: make(chan struct{})}
+	gm, err := gometrics.New(&gometrics.Config{FilterDefault: true}, sink)
+	if err != nil {
+		c.Inconclusive("go-metrics instance: %v", err)
+		return
+	}
+	defer gm.Shutdown()
+	prefix := append(make([]string, 0, 8), "app", "wal")
+	rec := newRec()
+	col := &teeCollector{rec: rec, all: newRec(), c: c, gom: metrics.NewGoMetricsCollector(prefix, nil, gm)}
+	w, err := drv.OpenSim(simfs.New(simfs.Strict), drv.Cfg{SegSize: 4096, Metrics: col})
+	if err != nil {
+		c.Violation("C20:open", err.Error(), nil)
+		return
+	}
+	defer drv.CloseWAL(w)
+	rng := rand.New(rand.NewSource(seed))
+	store := func(i uint64) bool {
+		if err := w.StoreLogs([]*raft.Log{gen.Entry(rng, i, "gm", 40+rng.Intn(60))}); err != nil {
+			c.Violation("C20:store", err.Error(), nil)
+			return false
+		}
+		return true
+	}
+	for i := uint64(1); i <= 5; i++ {
+		if !store(i) {
+			return
+		}
+	}
+	var wg sync.WaitGroup
+	if hold != "" {
+		// directed: one read's observation is held inside the sink while appends emit
+		wg.Add(1)
+		go func() {
+			defer wg.Done()
+			var l raft.Log
+			w.GetLog(3, &l)
+		}()
+		select {
+		case <-sink.held:
+			c.Count("gometrics_observations_held_in_sink", 1)
+		case <-time.After(10 * time.Second):
+			c.Inconclusive("no %s observation reached the sink", hold)
+		}
+		for i := uint64(6); i <= 8; i++ {
+			store(i)
+		}
+		close(sink.release)
+		wg.Wait()
+	} else {
+		close(sink.release)
+		var stop atomic.Bool
+		for r := 0; r < 4; r++ {
+			wg.Add(1)
+			go func(r int) {
+				defer wg.Done()
+				var l raft.Log
+				for i := 0; !stop.Load(); i++ {
+					w.GetLog(uint64(1+i%5), &l)
+				}
+			}(r)
+		}
+		for i := uint64(6); i <= 1500; i++ {
+			if !store(i) {
+				break
+			}
+		}
+		stop.Store(true)
+		wg.Wait()
+	}
+	hooks.WaitRotation(w, drv.Watchdog)
+	rec.mu.Lock()
+	want := map[string]uint64{}
+	for k, v := range rec.counters {
+		want[k] = v
+	}
+	rec.mu.Unlock()
+	sink.mu.Lock()
+	defer sink.mu.Unlock()
+	names := map[string]bool{}
+	for k := range want {
+		names["app.wal."+k] = true
+	}
+	for k := range sink.counters {
+		names[k] = true
+	}
+	mode := "stress"
+	if hold != "" {
+		mode = "held:" + hold
+	}
+	for k := range names {
+		wv := float64(want[strings.TrimPrefix(k, "app.wal.")])
+		if !strings.HasPrefix(k, "app.wal.") {
+			wv = 0
+		}
+		c.Count("gometrics_counter_checks", 1)
+		c.Distinct("counter_checks", "gometrics|"+k+fmt.Sprint(wv != 0))
+		if wv < 1<<24 && sink.counters[k] != wv {
+			c.Violation("C20:gometrics-total:"+strings.TrimPrefix(k, "app.wal."), fmt.Sprintf("through the bundled GoMetricsCollector (%s, emissions overlapping) the sink's total for %s is %v but the WAL emitted %v", mode, k, sink.counters[k], wv),
+				map[string]any{"seed": seed, "mode": mode})
+		}
+	}
+	c.Count("gometrics_concurrent_runs", 1)
 }
